@@ -173,6 +173,7 @@ def b2_b3_shapes(run: Run, prog: Program, cy: CyProgram, cfuncs, sites, handoffs
     contracts = {}    # (wrapper name, buffer param) -> [wrapper int param per axis]
     n_ptr = 0
     # B4: contracts from python call sites
+    state_ties = []
     for s in sites:
         k = s.kernel
         if not any(h.wrapper is k for h in handoffs):
@@ -222,12 +223,14 @@ def b2_b3_shapes(run: Run, prog: Program, cy: CyProgram, cfuncs, sites, handoffs
                     for ax, dsrc in enumerate(ashape):
                         if dsrc == vs and axes[ax] is None:
                             axes[ax] = qn
+                            state_ties.append((s, k, pn, v, base))
             if ashape is not None and len(set(ashape)) == 1 and any(axes):
                 # square arrays: one extent serves every axis
                 one = [a for a in axes if a][0]
                 axes = [a or one for a in axes]
             key = (k.name, pn)
             contracts.setdefault(key, []).append((s, axes, bsrc))
+    _b4_state_freshness(run, prog, state_ties)
     # per hand-off
     for h in handoffs:
         w, call = h.wrapper, h.call
@@ -310,9 +313,13 @@ def b2_b3_shapes(run: Run, prog: Program, cy: CyProgram, cfuncs, sites, handoffs
                 # every python call site passes a fresh C-ordered copy
                 css = [s for s in sites if s.kernel is w]
                 argi = [a for a, _ in w.args].index(x.a[0])
-                contiguous = bool(css) and all(
-                    isinstance(s.call.args[argi], ast.Call) and
-                    ast.unparse(s.call.args[argi].func) == "to_cy" for s in css) and \
+                def _is_to_cy(s_):
+                    a_ = s_.call.args[argi]
+                    if isinstance(a_, ast.Name):     # a local bound once to to_cy(...)
+                        from .idioms import single_defs
+                        a_ = single_defs(s_.func.node).get(a_.id, a_)
+                    return isinstance(a_, ast.Call) and ast.unparse(a_.func) == "to_cy"
+                contiguous = bool(css) and all(_is_to_cy(s_) for s_ in css) and \
                     cy.types["to_cy_c_copy"]
                 how = "call sites pass to_cy(...)"
             else:
@@ -418,6 +425,90 @@ def _returns_shape_of_param(m) -> str | None:
             else:
                 return None
     return out.pop() if len(out) == 1 else None
+
+
+def _b4_state_freshness(run: Run, prog: Program, ties):
+    """An extent taken from object state (`self.N`) is tied to a buffer taken
+    from object state (`self.get_R()`) only as long as both are rewritten
+    together: every public entry point that rewrites the size cell must also
+    rewrite the cells the buffer is read from, otherwise the kernel is handed the
+    new extent with the old, smaller buffer."""
+    from .pymodel import iter_events
+    from .rules_c01 import CacheModel
+    cm = CacheModel(prog)
+    seen = set()
+    for (s, k, pn, v, base) in ties:
+        f = s.func
+        if f.cls is None or not f.params:
+            continue
+        sn = f.params[0]
+        size_cells = {x.attr for x in ast.walk(v) if isinstance(x, ast.Attribute)
+                      and isinstance(x.value, ast.Name) and x.value.id == sn}
+        if not size_cells:
+            continue
+        # cells the buffer expression reads (through getters / methods)
+        t = prog.tree(f, f.cls, {})
+        arr_cells = set()
+        wrapper = ast.Expr(value=base)
+        for x in ast.walk(base):
+            if isinstance(x, ast.Attribute) and isinstance(x.value, ast.Name) and \
+                    x.value.id == sn:
+                m = prog.lookup(f.cls, x.attr)
+                if m is not None and m.kind in ("method", "getter"):
+                    mt = prog.tree(m, f.cls, {})
+                    arr_cells |= {e.cell for e in iter_events(mt) if e.kind == "read"
+                                  and e.cell and not e.cell.startswith("graph")
+                                  and e.cell not in size_cells
+                                  and e.cell != "silence_level"}
+                elif m is None:
+                    arr_cells.add(x.attr)
+        arr_cells -= size_cells
+        if not arr_cells:
+            continue
+        # an explicit guard `if X.shape != (extent, ...): raise` in the caller ties
+        # the buffer to the extent at the call, whatever happened before
+        vs = ast.unparse(v)
+        guarded = set()
+        for st in ast.walk(f.node):
+            if isinstance(st, ast.If) and any(isinstance(x, ast.Raise) for x in st.body):
+                for c in ast.walk(st.test):
+                    if isinstance(c, ast.Compare) and len(c.ops) == 1 and \
+                            isinstance(c.ops[0], ast.NotEq) and \
+                            isinstance(c.left, ast.Attribute) and c.left.attr == "shape" \
+                            and isinstance(c.comparators[0], ast.Tuple) and \
+                            all(ast.unparse(e) == vs for e in c.comparators[0].elts):
+                        guarded.add(ast.unparse(c.left.value))
+        if ast.unparse(base) in guarded:
+            run.oblige("B4", f"{f.qualname}->{k.name}:{pn}:shape-guard", True,
+                       sample={"guard": f"{ast.unparse(base)}.shape != ({vs}, ...)"})
+            continue
+        for C in [c for c in prog.classes.values() if f.cls in c.mro]:
+            for a in cm.activations(C):
+                tr = prog.tree(a, C, {})
+                evs = list(iter_events(tr))
+                wsize = [e for e in evs if e.kind in ("write", "assign")
+                         and e.cell in size_cells]
+                if not wsize:
+                    continue
+                warr = {e.cell for e in evs if e.kind in ("write", "assign")}
+                stale = sorted(arr_cells - warr)
+                wq = wsize[0].func.qualname
+                key = (f.qualname, k.name, wq, tuple(stale))
+                if key in seen:
+                    continue
+                seen.add(key)
+                run.oblige("B4", f"{f.qualname}->{k.name}:fresh-after:{wq}",
+                           not stale, sample={"size_cells": sorted(size_cells),
+                                              "buffer_cells": sorted(arr_cells)})
+                if stale:
+                    run.add("B4", f"{f.qualname}/{k.name}/stale-shape/{wq}",
+                            wsize[0].where,
+                            f"{f.qualname} passes the extent `{ast.unparse(v)}` together "
+                            f"with `{ast.unparse(base)}` to {k.name} (raw pointers in C); "
+                            f"{wq} (reached e.g. from {a.qualname}) rewrites "
+                            f"{sorted(size_cells)} but not "
+                            f"{stale}: after it the kernel walks the new extent over the "
+                            f"old buffer - beyond its end when the network grew")
 
 
 def _same_shape_source(f, a_src: str, b_src: str) -> bool:
